@@ -187,9 +187,9 @@ fn artefacts(ctx: &Ctx) -> (String, String) {
 		}
 		let w = certs::Workload { pool: &pool, issuers: &issuers };
 		let n = match prop {
-			Prop::C02 => ctx.scale(5_000, 300_000),
-			Prop::C05 => ctx.scale(3_000, 100_000),
-			_ => ctx.scale(3_000, 150_000),
+			Prop::C02 => ctx.scale(15_000, 400_000),
+			Prop::C05 => ctx.scale(6_000, 150_000),
+			_ => ctx.scale(6_000, 200_000),
 		};
 		certs::run(ctx, prop, &w, n);
 		if prop == Prop::C05 {
@@ -200,10 +200,10 @@ fn artefacts(ctx: &Ctx) -> (String, String) {
 		}
 	}
 	if matches!(prop, Prop::C01 | Prop::C04 | Prop::C05 | Prop::C07) && wants("csr") {
-		csrs::run(ctx, prop, &pool, if prop == Prop::C07 { ctx.scale(4_000, 150_000) } else { ctx.scale(1_500, 60_000) });
+		csrs::run(ctx, prop, &pool, if prop == Prop::C07 { ctx.scale(12_000, 250_000) } else { ctx.scale(3_000, 80_000) });
 	}
 	if matches!(prop, Prop::C01 | Prop::C04 | Prop::C05 | Prop::C08) && wants("crl") {
-		crls::run(ctx, prop, &pool, if prop == Prop::C08 { ctx.scale(2_500, 100_000) } else { ctx.scale(1_000, 40_000) });
+		crls::run(ctx, prop, &pool, if prop == Prop::C08 { ctx.scale(8_000, 150_000) } else { ctx.scale(2_000, 60_000) });
 	}
 	if prop == Prop::C01 && ctx.replay.is_none() {
 		c01_faults(ctx);
